@@ -141,9 +141,10 @@ struct Rec {
     panicked: bool,
 }
 
-/// Keys 2..5 have empty components or a '/': ids are keys verbatim, each has its own file in the source.
+/// Key 1 is longer than 32 bytes, keys 2..5 have empty components or a '/': ids are keys verbatim, each has its own file in the source.
 fn key_name(k: u8) -> String {
     match k {
+        1 => "k1.environment.forest.trees.oak_large_01.k1".to_string(),
         2 => "k0.".to_string(),
         3 => ".k0".to_string(),
         4 => "k0..k1".to_string(),
@@ -613,7 +614,7 @@ impl Prop for C01 {
     fn rule(&self) -> String {
         "cases = (2..8 thread programs of load / get_cached / get_or_insert / contains on 1..6 overlapping keys of an asset type and a storable type, through AssetCache or its AnyCache view; \
          optional gate: loaders that passed the cache miss wait (bounded) for each other inside the harness loader, forcing simultaneous misses; 0..20000 (thorough: up to 300000) unrelated insertions \
-         concurrently and afterwards; shard count via CPU affinity 1/2/3/4/5/6/7/12/16 at construction; with or without a reloader; keys include ids with empty components or a '/' (k0., .k0, k0..k1, k0/k1), each with its own file; in a third of the cases 50..600 ids that were never cached are removed (twice) after the racing phase (nothing may vanish); \
+         concurrently and afterwards; shard count via CPU affinity 1/2/3/4/5/6/7/12/16 at construction; with or without a reloader; keys include a 44-byte id and ids with empty components or a '/' (k0., .k0, k0..k1, k0/k1), each with its own file; in a third of the cases 50..600 ids that were never cached are removed (twice) after the racing phase (nothing may vanish); \
          in a quarter of the cases every value that loses a race panics in its destructor (the unwinding call is the loser's own, every other call must be unaffected); a single-threaded LocalAssetCache variant). \
          Oracle over the joined logs: one pointer and one value per key, presence monotone along a ticket-based happens-before order, ledger: exactly the winner alive and every loser dropped once, \
          retained handles still identical and readable after growth. non-trivial = >= 2 loaders provably inside the miss window of one key, or >= 1 value that lost an insertion race, or (local variant) >= 1000 growth insertions; distinct = different canonical JSON"
